@@ -154,7 +154,7 @@ func Merge[T any](remoteWrite bool, s1 []T, s2 []T) ([]T, bool) {
 		s1ItemHash := hashKey(s1Item)
 		s2Item, exist := m2[s1ItemHash]
 		writeAllowed := writeAllowed(s1Item)
-		if !writeAllowed && remoteWrite {
+		if exist && !writeAllowed && remoteWrite {
 			success = false
 		}
 		// if exists and overwriting is allowed
@@ -179,6 +179,9 @@ func Merge[T any](remoteWrite bool, s1 []T, s2 []T) ([]T, bool) {
 		if !exist && !remoteWrite {
 			// only local updates can append data
 			result = append(result, s2Item)
+		} else if !exist {
+			// a remote write can not add new items
+			success = false
 		}
 	}
 
